@@ -44,6 +44,13 @@ func Probes(prop string) []*Case {
 	add("KF-12", []string{"C12", "C01"}, &Case{Src: newSrc("probe12", two, Iface{Name: "P", Methods: []Method{
 		meth("Ma", ps(par("oneclient", Basic("int")), par("c", Named(0, "T"))), nil), meth("Mb", ps(par("c", Named(1, "T"))), nil)},
 		Aliases: []map[int]string{{}, {}}}), Cfg: Cfg{Dest: "implicit", Args: []string{"P"}}})
+	add("KF-13", []string{"C01"}, &Case{Src: newSrc("probe13", one, Iface{Name: "P", Methods: []Method{
+		meth("Do", ps(par("a", Basic("int"))), nil), meth("DoCalls", nil, ps(par("", Basic("int")))), meth("DoFunc", ps(par("s", Basic("string"))), nil)}}),
+		Cfg: Cfg{Dest: "implicit", Args: []string{"P"}}})
+	add("KF-14", []string{"C20", "C01"}, &Case{Src: newSrc("probe14", one, Iface{Name: "P", Methods: []Method{
+		meth("Do", ps(par("a", Basic("int"))), nil)}}), Cfg: Cfg{Dest: "implicit", Args: []string{"P", "P"}}, Solo: true})
+	add("KF-15", []string{"C12", "C01"}, &Case{Src: newSrc("probe15", one, Iface{Name: "P", Methods: []Method{
+		meth("Do", ps(par("string", Basic("string")), par("s", Basic("string"))), nil)}}), Cfg: Cfg{Dest: "implicit", Args: []string{"P"}}})
 	if prop == "C15" {
 		pk := []Pkg{dep("codec", "m", "codec"), dep("store", "m", "store"), dep("codec", "n", "codec")}
 		ifs := []Iface{
